@@ -137,7 +137,7 @@ fn one_run<const E: i32>(seed: u64, start_w: f64, end_w: f64, c1: f64, c2: f64, 
 pub fn c18_native_swarm() {
     let mut cases = 0u64;
     for seed in 0..4u64 {
-        for tiny in [false, true] { for (sw, ew, c1, c2, vm, particles) in [(0.9, 0.4, 1.0, 1.5, 1.0, 6u32), (0.9, 0.4, 0.0, 0.0, 0.5, 4), (1.2, 0.2, 2.0, 2.0, 0.25, 1), (0.4, 0.9, 0.5, 0.5, 1.0, 3), (0.7, 0.7, 0.0, 0.0, 1.0, 2)] {
+        for tiny in [false, true] { for (sw, ew, c1, c2, vm, particles) in [(0.9, 0.4, 1.0, 1.5, 1.0, 6u32), (0.9, 0.4, 0.0, 0.0, 0.5, 4), (1.2, 0.2, 2.0, 2.0, 0.25, 1), (0.4, 0.9, 0.5, 0.5, 1.0, 3), (0.7, 0.7, 0.0, 0.0, 1.0, 2), (1.4, 0.6, 0.0, 0.0, 1.0e3, 3), (1.25, 1.25, 0.0, 0.0, 64.0, 2), (0.0, 1.5, 0.0, 0.0, 1.0, 2)] {
             let (failures, updates) = if tiny { one_run::<-18>(seed, sw, ew, c1, c2, vm, 12, particles) } else { one_run::<0>(seed, sw, ew, c1, c2, vm, 12, particles) };
             if updates != 12 { eprintln!("COUNTEREXAMPLE seed={seed} objective_scale={} weights {sw}->{ew} c1={c1} c2={c2} v_max={vm}: {updates} swarm updates observed in 12 iterations", if tiny { "1e-18" } else { "1" }); panic!("swarm invariant violated") }
             if !failures.is_empty() {
